@@ -1,5 +1,9 @@
 // C10 - domain transforms act as an exact change of variables
 #include "monitors.hpp"
+#include <unistd.h>
+#include <fcntl.h>
+#include <signal.h>
+#include <sys/wait.h>
 
 namespace vf{
 
@@ -206,6 +210,72 @@ void mon_c10(CaseCtx &c, Rng &rng){
                 if (!expect_reject && !inside(o)){ c.viol("domain-inside:rejects-point-of-unbounded-direction:" + cls, J().vec("x", o).obj()); return; }
                 c.count("domain_probes", 2);
             }
+        }
+        // 6. dynamic construction under a linear map: candidates are the mapped canonical candidates, and samples delivered in ONE multi-point call
+        //    (the batch overload canonicalizes the whole array) land on the same nodes with the same values as on the canonical twin
+        bool nested_rule = !(T.isGlobal() && (cfg.custom || OneDimensionalMeta::isNonNested(T.getRule())));
+        if (!want_conf && want_lin && m > 0 && nested_rule && rng.coin(0.6)){
+            T.beginConstruction(); C.beginConstruction();
+            for(int round=0; round<2; round++){
+                std::vector<double> ct, cc;
+                if (T.isLocalPolynomial() || T.isWavelet()){
+                    ct = T.getCandidateConstructionPoints(0.0, refine_classic, -1);
+                    cc = C.getCandidateConstructionPoints(0.0, refine_classic, -1);
+                }else{
+                    ct = T.getCandidateConstructionPoints(type_level, 0);
+                    cc = C.getCandidateConstructionPoints(type_level, 0);
+                }
+                if (ct.size() != cc.size()){ c.viol("construction:candidate-count-differs-from-canonical-twin:" + cls, J().i("transformed", (long long) ct.size() / d).i("canonical", (long long) cc.size() / d).obj()); return; }
+                size_t nc = cc.size() / (size_t) d;
+                if (nc == 0) break;
+                for(size_t i=0; i<nc; i++) for(int j=0; j<d; j++){
+                    double expect = map.fwd(j, cc[i * (size_t) d + (size_t) j]), got = ct[i * (size_t) d + (size_t) j];
+                    if (!(std::fabs(got - expect) <= 64 * EPS10 * (scale_x[(size_t) j] + std::fabs(expect)))){
+                        c.viol("construction:candidate-not-the-documented-map-of-canonical-candidate:" + cls, J().i("candidate", (long long) i).i("dim", j).num("library", got).num("documented_map", expect).obj()); return; }
+                }
+                size_t take = std::min<size_t>(nc, (size_t) rng.range(2, 9));
+                std::vector<double> bt(ct.begin(), ct.begin() + (long)(take * (size_t) d)), bc(cc.begin(), cc.begin() + (long)(take * (size_t) d));
+                std::vector<double> y = model_values(bc, d, m, 2 + round, 1);
+                {   // The library matches delivered coordinates to nodes with an absolute tolerance of 1e-12 in canonical coordinates and searches without
+                    // bound; the rounding of the inverse map is ~ eps (|a|+|b|)/(b-a).  The delivery is therefore first tried in a forked child
+                    // with a 3 s alarm, so that a delivery that does not return is an observation, not a watchdog event.
+                    double kappa = 0.0;
+                    for(int j=0; j<d; j++) kappa = std::max(kappa, (std::fabs(cfg.ta[(size_t) j]) + std::fabs(cfg.tb[(size_t) j])) / std::fabs(cfg.tb[(size_t) j] - cfg.ta[(size_t) j]));
+                    fflush(stdout); fflush(stderr);
+                    pid_t pid = fork();
+                    if (pid == 0){
+                        int dn = open("/dev/null", O_WRONLY); if (dn >= 0){ dup2(dn, 1); dup2(dn, 2); }
+                        alarm(3);
+                        try{ T.loadConstructedPoints(bt, y); }catch(...){ _exit(7); }
+                        _exit(0);
+                    }
+                    int st = 0; if (pid > 0) waitpid(pid, &st, 0);
+                    c.count("construction_deliveries_probed_in_child");
+                    if (pid > 0 && !(WIFEXITED(st) && WEXITSTATUS(st) == 0)){
+                        std::string how = WIFSIGNALED(st) ? ((WTERMSIG(st) == SIGALRM) ? "no-return-within-3s" : "killed-by-signal-" + std::to_string(WTERMSIG(st))) : "exit-" + std::to_string(WEXITSTATUS(st));
+                        std::string fam = fam_name(cfg.family);
+                        if (kappa > 7.0) c.viol("construction:own-candidates-not-matched-under-ill-conditioned-linear-map:" + fam, J().str("how", how).num("conditioning_(|a|+|b|)/(b-a)", kappa).vec("a", cfg.ta).vec("b", cfg.tb).obj());
+                        else c.viol("construction:batch-delivery-of-own-candidates-does-not-return:" + cls, J().str("how", how).num("conditioning", kappa).obj());
+                        return;
+                    }
+                }
+                T.loadConstructedPoints(bt, y); C.loadConstructedPoints(bc, y);
+                c.count("construction_batches_delivered_under_transform");
+                if (T.getNumLoaded() != C.getNumLoaded()){ c.viol("construction:loaded-count-differs-from-canonical-twin:" + cls, J().i("transformed", T.getNumLoaded()).i("canonical", C.getNumLoaded()).obj()); return; }
+                int nl = T.getNumLoaded();
+                if (nl > 0){
+                    std::vector<double> lt = T.getLoadedPoints(), lc = C.getLoadedPoints();
+                    for(int i=0; i<nl; i++) for(int j=0; j<d; j++){
+                        double expect = map.fwd(j, lc[(size_t) i * (size_t) d + (size_t) j]);
+                        if (!(std::fabs(lt[(size_t) i * (size_t) d + (size_t) j] - expect) <= 64 * EPS10 * (scale_x[(size_t) j] + std::fabs(expect)))){
+                            c.viol("construction:loaded-point-not-the-map-of-canonical-loaded-point:" + cls, J().i("point", i).i("dim", j).obj()); return; }
+                    }
+                    const double *vt = T.getLoadedValues(), *vc = C.getLoadedValues();
+                    for(size_t i=0; i<(size_t) nl * (size_t) m; i++) if (!same_bits(vt[i], vc[i])){
+                        c.viol("construction:value-attached-to-another-node-than-on-canonical-twin:" + cls, J().i("entry", (long long) i).num("transformed", vt[i]).num("canonical", vc[i]).obj()); return; }
+                }
+            }
+            T.finishConstruction(); C.finishConstruction();
         }
     }catch(std::exception &e){ c.viol("exception:" + exception_class(e), J().str("what", e.what()).obj()); return; }
     c.sig(cfg.sig() + "|" + std::to_string(cfg.depth));
